@@ -1,10 +1,10 @@
 SPECIFICATION Spec
 CONSTANTS
-  MaxScript = 3
+  MaxScript = 4
   MaxSpurious = 1
-  FORWARD_WAKER = FALSE
+  FORWARD_WAKER = TRUE
   READY_DRAINS = TRUE
-  FILTER_MODE = "none"
+  FILTER_MODE = "filter"
 INVARIANTS TypeOK PrefixInv QueueInv DoneInv
-PROPERTIES Terminates
+PROPERTIES Terminates EveryPushDelivered AllDelivered
 CHECK_DEADLOCK FALSE
